@@ -1521,6 +1521,105 @@ example : libDraw { enabled := true, initial := 0, maxInt := 0, maxElapsed := 0,
     libDraw { enabled := true, initial := 0, maxInt := 0, maxElapsed := 0, mulNum := 3, mulDen := 2, rfNum := 1, rfDen := 2, timeout := 0 } 1000 999 1000 = 1499 := by decide
 
 
+/-- `afterFailure` = its four pre-select checks, then the blocking select -/
+theorem afterFailure_split (c : Cfg) (e : Env) (fin w : Nat) :
+    afterFailure c e fin w = match preSelect c e fin w with
+      | some x => some x
+      | none => blockingSelect e fin w := by
+  unfold afterFailure preSelect blockingSelect
+  simp only []
+  split
+  · rfl
+  · split
+    · rfl
+    · split
+      · rfl
+      · split
+        · rfl
+        · rfl
+
+/-- **one iteration of `retrySender.Send`, regenerated**: the decision chain compiled from retry_sender.go, run on the inputs
+the model supplies for an attempt that returned at `fin`, gives exactly the model's verdict: `nil` after a success, "not
+retryable" after a permanent error, otherwise the throttle-adjusted wait `max(backoff, throttle)` checked against the budget,
+the deadline, the closed `stopCh` and `ctx.Err()` in that order, else the blocking select with a timer of that wait — with
+`OnError` applied before -/
+theorem C05_src_retry_step (c : Cfg) (e : Env) (cur fin : Nat) (a : Attempt) :
+    RetryCfg.retryStep (stepInOf c e cur fin a) = modelStep c e cur fin a := by
+  unfold RetryCfg.retryStep stepInOf modelStep
+  cases hok : a.ok <;> cases hp : a.perm <;> simp
+  have hw : (if (optI a.throttle).isSome = true then
+        max ((backoffDelay c (curInterval c cur) a : Nat) : Int) ((optI a.throttle).getD 0)
+      else ((backoffDelay c (curInterval c cur) a : Nat) : Int)) = ((waitOf c (curInterval c cur) a : Nat) : Int) := by
+    cases hth : a.throttle with
+    | none => simp [optI, waitOf, hth]
+    | some th => simp [optI, waitOf, hth]; omega
+  simp only [hw]
+  generalize waitOf c (curInterval c cur) a = W
+  have h1 : (0 < c.maxElapsed ∧ (if 0 < c.maxElapsed then some (c.maxElapsed : Int) else none).getD 0 < (fin : Int) + (W : Int)) ↔
+      (c.maxElapsed > 0 ∧ c.maxElapsed < fin + W) := by
+    by_cases h : 0 < c.maxElapsed
+    · simp [h]; omega
+    · simp [h]
+  have h2 : ((optI e.deadline).isSome = true ∧ (optI e.deadline).getD 0 < (fin : Int) + (W : Int)) ↔ olt e.deadline (fin + W) = true := by
+    cases hd : e.deadline with
+    | none => simp [optI, olt]
+    | some d => simp [optI, olt]; omega
+  simp only [h1, h2, preSelect]
+  by_cases c1 : c.maxElapsed > 0 ∧ c.maxElapsed < fin + W
+  · simp [c1, stepOutOf]
+  · by_cases c2 : olt e.deadline (fin + W) = true
+    · simp [c1, c2, stepOutOf]
+    · by_cases c3 : ole e.shutdown fin = true
+      · simp [c1, c2, c3, stepOutOf]
+      · by_cases c4 : ole e.ctxDone fin = true
+        · simp [c1, c2, c3, c4, stepOutOf]
+        · simp [c1, c2, c3, c4, stepOutOf]
+
+
+/-- … and that verdict is what `run` does with the iteration: a pre-select verdict ends `Send` at `fin` with that reason;
+otherwise the blocking select decides (`blockingSelect`: the earliest of shutdown / context done / timer), and if the timer
+wins the loop goes round with the narrowed payload and the next `currentInterval` -/
+theorem C05_run_iteration (c : Cfg) (e : Env) (now cur fin : Nat) (p : List Nat) (a : Attempt) (as : List Attempt)
+    (hen : c.enabled = true) (hf : finish c e now a = some fin) (hok : a.ok = false) (hp : a.perm = false) :
+    run c e now cur p (a :: as) =
+      match preSelect c e fin (waitOf c (curInterval c cur) a) with
+      | some (r, t) => { calls := [⟨now, fin, p⟩], reason := r, tEnd := t, sdFlag := (r == .shutdown) || a.sd }
+      | none =>
+        match blockingSelect e fin (waitOf c (curInterval c cur) a) with
+        | some (r, t) => { calls := [⟨now, fin, p⟩], reason := r, tEnd := t, sdFlag := (r == .shutdown) || a.sd }
+        | none =>
+          { run c e (fin + waitOf c (curInterval c cur) a) (nextCur c (curInterval c cur)) (a.rest.getD p) as with
+            calls := ⟨now, fin, p⟩ :: (run c e (fin + waitOf c (curInterval c cur) a) (nextCur c (curInterval c cur)) (a.rest.getD p) as).calls } := by
+  simp only [run, hf, hok, hp, hen, afterFailure_split]
+  cases h1 : preSelect c e fin (waitOf c (curInterval c cur) a) with
+  | some x => simp
+  | none =>
+    cases h2 : blockingSelect e fin (waitOf c (curInterval c cur) a) with
+    | some x => simp
+    | none => simp
+
+/-- `timeoutSender.Send`, regenerated: the deadline the pusher sees (`pusherDeadline`, timeout sender installed) is
+`context.WithTimeout(ctx, Timeout)` of the REQUEST's context taken at the start of this attempt -/
+theorem C05_src_timeout_step (c : Cfg) (e : Env) (start : Nat) (h : 0 < c.timeout) :
+    (pusherDeadline c e start).map (fun n => (n : Int)) =
+      some (RetryCfg.timeoutSendDeadline (optI e.deadline) (start : Nat) (c.timeout : Nat)) := by
+  unfold pusherDeadline RetryCfg.timeoutSendDeadline
+  cases hd : e.deadline with
+  | none => simp [omin, optI, h]
+  | some d => simp [omin, optI, h]; omega
+
+example : RetryCfg.retryStep (stepInOf { enabled := true, initial := 1000, maxInt := 10000, maxElapsed := 0, mulNum := 2, mulDen := 1, rfNum := 0, rfDen := 1, timeout := 0 }
+    { shutdown := some 5 } 0 7 { throttle := some 3000 }) = .retShutdown ∧
+  RetryCfg.retryStep (stepInOf { enabled := true, initial := 1000, maxInt := 10000, maxElapsed := 0, mulNum := 2, mulDen := 1, rfNum := 0, rfDen := 1, timeout := 0 }
+    {} 0 7 { throttle := some 3000 }) = .wait 3000 true := by decide
+
+
+/-- the blocking select as regenerated: context done → "cancelled or timed out", `stopCh` → shutdown error, timer → next
+iteration (what `blockingSelect` models; which ready case wins at equal instants is the Go runtime's choice — `Allowed`) -/
+theorem C05_src_retry_select : RetryCfg.retrySelect =
+    ["ctx.Done() => .retWrap \"request is cancelled or timed out\"", "rs.stopCh => .retShutdown", "time.After(backoffDelay) => continue"] := rfl
+
+
 /-- **source pins**: the regenerated statement lists of the functions that are modelled by hand (outside the compiled subset)
 are exactly the ones the model was written from — an edit of any of them stops the build until the model has been re-examined -/
 theorem C05_src_skeletons : SrcPinned := by
